@@ -29,6 +29,7 @@ type Mutant struct {
 
 var Mutants = map[string][]Mutant{
 	"C01": {
+		{"clipping contour registered unclosed", "path_intersection.go", `qSeg = queue\.AddPathEndpoints\(q, qSeg, true\)`, "qSeg = queue.AddPathEndpoints(qs[i], qSeg, true)", "E9.clip-closed"},
 		{"absorbed segment keeps the other path's windings (same path)", "path_intersection.go", `\t\t\ts\.selfWindings \+= prev\.selfWindings\n\t\t\ts\.otherSelfWindings \+= prev\.otherSelfWindings\n`, "\t\t\ts.selfWindings += prev.selfWindings\n", "E9.absorb-conserves"},
 		{"absorbed segment handed over straight across paths", "path_intersection.go", `\t\t\ts\.selfWindings \+= prev\.otherSelfWindings\n\t\t\ts\.otherSelfWindings \+= prev\.selfWindings\n`, "\t\t\ts.selfWindings += prev.selfWindings\n\t\t\ts.otherSelfWindings += prev.otherSelfWindings\n", "E9.absorb-conserves"},
 		{"islands reversed like holes", "path_intersection.go", `if windings%2 != 0 \{`, "if 0 < windings {", "E9.hole-parity"},
@@ -40,6 +41,7 @@ var Mutants = map[string][]Mutant{
 		{"empty Q returns P for And", "path_intersection.go", `if op == opAND \{\n\t\t\treturn &Path\{\}\n\t\t\}\n\t\treturn ps\.Settle\(fillRule\)`, `return ps.Settle(fillRule)`, "E9.shortcut"},
 	},
 	"C02": {
+		{"operand sub-paths expanded in place over the tail", "path_intersection.go", `(?s)for i, iMax := 0, len\(ps\); i < iMax; i\+\+ \{\n\t\tsplit := ps\[i\]\.Split\(\)\n\t\tif 1 < len\(split\) \{\n\t\t\tps\[i\] = split\[0\]\n\t\t\tps = append\(ps, split\[1:\]\.\.\.\)\n`, "for i := 0; i < len(ps); i++ {\n\t\tsplit := ps[i].Split()\n\t\tif 1 < len(split) {\n\t\t\tps = append(append(ps[:i], split...), ps[i+1:]...)\n\t\t\ti += len(split) - 1\n", "E4.insert-alias"},
 		{"tolerance square range starts at the reference node below", "path_intersection.go", `// this is set if the reference node is below the square\n\t\t\t\t\t\tsquare\.Lower = next\n`, "// this is set if the reference node is below the square\n\t\t\t\t\t\tsquare.Lower = square.Node\n", "E9.square-range"},
 		{"contour depth read from the segment directly below", "path_intersection.go", `\t\t\tfor prev != nil && !prev\.resultEdge \{\n[^\n]*\n\t\t\t\tprev = prev\.prev\n\t\t\t\}\n`, "", "E9.depth-from-result-edge"},
 		{"result-edge flag taken after inResult is consumed", "path_intersection.go", `\t\t\tevent\.resultEdge = 0 < event\.inResult\n`, "\t\t\tevent.resultEdge = event.left\n", "E9.depth-from-result-edge"},
@@ -108,6 +110,8 @@ var Mutants = map[string][]Mutant{
 		{"Join passes radians to ArcTo", "path.go", `p\.ArcTo\(d\[1\], d\[2\], d\[3\]\*180\.0/math\.Pi, large, sweep, d\[5\], d\[6\]\)`, `p.ArcTo(d[1], d[2], d[3], large, sweep, d[5], d[6])`, "E8.units"},
 	},
 	"C08": {
+		{"arc half extent as the 1-norm of the coefficients", "path.go", `dx := math\.Sqrt\(rx\*rx\*cosphi\*cosphi \+ ry\*ry\*sinphi\*sinphi\)`, "dx := rx*math.Abs(cosphi) + ry*math.Abs(sinphi)", "E3.arc-extent"},
+		{"arc Y extent computed with the X polynomial", "path.go", `dy := math\.Sqrt\(rx\*rx\*sinphi\*sinphi \+ ry\*ry\*cosphi\*cosphi\)`, "dy := math.Sqrt(rx*rx*cosphi*cosphi + ry*ry*sinphi*sinphi)", "E3.arc-extent"},
 		{"FastBounds skips the start point of later sub-paths", "path.go", `(?s)\t\tcase MoveToCmd, LineToCmd, CloseCmd:\n(\t\t\tend = Point\{p\.d\[i\+1\], p\.d\[i\+2\]\}\n)(\t\t\txmin = math\.Min\(xmin, end\.X\)\n\t\t\txmax = math\.Max\(xmax, end\.X\)\n\t\t\tymin = math\.Min\(ymin, end\.Y\)\n\t\t\tymax = math\.Max\(ymax, end\.Y\)\n\t\tcase QuadToCmd:\n\t\t\tcp := Point\{p\.d\[i\+1\], p\.d\[i\+2\]\}\n\t\t\tend = Point\{p\.d\[i\+3\], p\.d\[i\+4\]\}\n\t\t\txmin = math\.Min\(xmin, math\.Min\(cp\.X, end\.X\)\))`, "\t\tcase MoveToCmd:\n${1}\t\tcase LineToCmd, CloseCmd:\n${1}${2}", "E3.hull"},
 		{"FastBounds shadows the carried end point", "path.go", `\t\t\tcp := Point\{p\.d\[i\+1\], p\.d\[i\+2\]\}\n\t\t\tend = Point\{p\.d\[i\+3\], p\.d\[i\+4\]\}\n\t\t\txmin = math\.Min\(xmin, math\.Min\(cp\.X, end\.X\)\)`, "\t\t\tcp, end := Point{p.d[i+1], p.d[i+2]}, Point{p.d[i+3], p.d[i+4]}\n\t\t\txmin = math.Min(xmin, math.Min(cp.X, end.X))", "E2.carried-shadow"},
 		{"FastBounds quad max uses Min", "path.go", `xmax = math\.Max\(xmax, math\.Max\(cp\.X, end\.X\)\)`, `xmax = math.Max(xmax, math.Min(cp.X, end.X))`, "E3.homogeneity"},
@@ -172,6 +176,7 @@ var Mutants = map[string][]Mutant{
 		{"PS eofill outside its guard", "renderers/ps/ps.go", `r\.w\.Write\(\[\]byte\(" fill"\)\)\n\t\t\}\n\t\tif style\.HasStroke\(\) && !strokeUnsupported \{\n\t\t\tr\.w\.Write\(\[\]byte\(" grestore"\)\)`, "r.w.Write([]byte(\" eofill\"))\n\t\t}\n\t\tif style.HasStroke() && !strokeUnsupported {\n\t\t\tr.w.Write([]byte(\" grestore\"))", "E6.enum"},
 	},
 	"C13": {
+		{"negative dash phase made positive by a possibly zero step", "renderers/pdf/writer.go", `\t\tif 0\.0 < totalLength \{\n\t\t\tfor dashPhase < 0\.0 \{\n\t\t\t\tdashPhase \+= totalLength\n\t\t\t\}\n\t\t\} else \{\n[^\n]*\n\t\t\}\n`, "\t\tfor dashPhase < 0.0 {\n\t\t\tdashPhase += totalLength\n\t\t}\n", "E4.additive-loop"},
 		{"DCT images always declared DeviceRGB", "renderers/pdf/writer.go", `\t\tif _, ok := img\.\(\*image\.Gray\); ok \{\n\t\t\tcolorSpace = pdfName\("DeviceGray"\)[^\n]*\n\t\t\}\n`, "", "E5.jpeg-colorspace"},
 		{"parentheses escaped only when their counts differ", "renderers/pdf/writer.go", "(\\t\\tv = strings\\.Replace\\(v, `\\(`, [^\\n]*\\n\\t\\tv = strings\\.Replace\\(v, `\\)`, [^\\n]*\\n)", "\t\tif strings.Count(v, \"(\") != strings.Count(v, \")\") {\n${1}\t\t}\n", "E5.string-escape"},
 		{"PDF colour components divided by an untested alpha", "renderers/pdf/writer.go", `\tif c\.A == 0 \{\n\t\treturn 0\.0, 0\.0, 0\.0\n\t\}\n`, "", "E4.alpha-division"},
@@ -192,6 +197,7 @@ var Mutants = map[string][]Mutant{
 		{"stroke keeps even-odd star", "renderers/pdf/pdf.go", `\t\t\tif closed \{\n\t\t\t\tr\.w\.Write\(\[\]byte\(" s"\)\)\n\t\t\t\} else \{\n\t\t\t\tr\.w\.Write\(\[\]byte\(" S"\)\)\n\t\t\t\}\n\t\t\} else if style\.HasFill\(\) && style\.HasStroke\(\) \{`, "\t\t\tif closed {\n\t\t\t\tr.w.Write([]byte(\" s\"))\n\t\t\t} else {\n\t\t\t\tr.w.Write([]byte(\" S\"))\n\t\t\t}\n\t\t\tif style.FillRule == canvas.EvenOdd {\n\t\t\t\tr.w.Write([]byte(\"*\"))\n\t\t\t}\n\t\t} else if style.HasFill() && style.HasStroke() {", "E5.grammar"},
 	},
 	"C14": {
+		{"rasterizer transforms the path before stroking it", "renderers/rasterizer/rasterizer.go", `\t\tstroke = path\n\t\tif 0 < len\(style\.Dashes\) \{`, "\t\tstroke = path.Copy().Transform(m)\n\t\tif 0 < len(style.Dashes) {", "E11.stroke-before-view"},
 		{"scanner remembers the next sub-path's start before closing the previous one", "path.go", `(?s)\tvar first Point\n(\topen := false\n.*?)\t\t\tif cmd == MoveToCmd && open \{\n[^\n]*\n\t\t\t\tras\.Line\(fixedPoint26_6\(first\.X\*dpmm, dy-first\.Y\*dpmm\)\)\n\t\t\t\}\n(.*?)\t\t\tfirst = Point\{p\.d\[i\+1\], p\.d\[i\+2\]\}\n\t\t\tras\.Start\(fixedPoint26_6\(p\.d\[i\+1\]\*dpmm, dy-p\.d\[i\+2\]\*dpmm\)\)\n(.*?)\t\tras\.Line\(fixedPoint26_6\(first\.X\*dpmm, dy-first\.Y\*dpmm\)\)\n`, "\tvar first fixed.Point26_6\n${1}\t\t\tif cmd == MoveToCmd {\n\t\t\t\tfirst = fixedPoint26_6(p.d[i+1]*dpmm, dy-p.d[i+2]*dpmm)\n\t\t\t\tif open {\n\t\t\t\t\tras.Line(first)\n\t\t\t\t}\n\t\t\t}\n${2}\t\t\tras.Start(first)\n${3}\t\tras.Line(first)\n", "E6.implicit-close"},
 		{"rasterizer strokes with a view-independent tolerance", "renderers/rasterizer/rasterizer.go", `\t\t\ttolerance /= math\.Max\(math\.Abs\(sx\), math\.Abs\(sy\)\)\n`, "\t\t\t_ = sx + sy\n", "E11.stroke-tolerance-view"},
 		{"hatch colour taken from the already converted pattern", "renderers/rasterizer/rasterizer.go", `\t\t\tif hatch, ok := style\.Fill\.Pattern\.\(\*canvas\.HatchPattern\); ok \{\n\t\t\t\tstyle\.Fill = hatch\.Fill`, "\t\t\tif hatch, ok := style.Fill.Pattern.SetColorSpace(r.colorSpace).(*canvas.HatchPattern); ok {\n\t\t\t\tstyle.Fill = hatch.Fill", "E12.colorspace-once"},
@@ -207,6 +213,7 @@ var Mutants = map[string][]Mutant{
 		{"rasterizer ignores the fill rule", "renderers/rasterizer/rasterizer.go", `\t\tr\.scanner\.SetWinding\(style\.FillRule != canvas\.EvenOdd\)\n`, ``, "E6.style-field"},
 	},
 	"C15": {
+		{"SetDashes keeps the caller's array", "canvas.go", `c\.Style\.Dashes = append\(\[\]float64\{\}, dashes\.\.\.\)[^\n]*\n`, "c.Style.Dashes = dashes\n", "E11.setter-copies-slice"},
 		{"checkDash hands out the canonical dashes without their offset", "path.go", `\t\treturn d\[:0\], false // first space covers whole path, no stroke\n\t\}\n\treturn orig, true\n`, "\t\treturn d[:0], false // first space covers whole path, no stroke\n\t}\n\t_ = orig\n\treturn d, true\n", "E11.dash-pair"},
 		{"DrawPath skips the coordinate view at the origin", "canvas.go", `\tcoord := c\.coordView\.Dot\(Point\{x, y\}\)\n\tm = m\.Mul\(c\.view\)\.Translate\(coord\.X, coord\.Y\)\n\n\tfor _, path := range paths`, "\tm = m.Mul(c.view)\n\tif x != 0.0 || y != 0.0 {\n\t\tcoord := c.coordView.Dot(Point{x, y})\n\t\tm = m.Translate(coord.X, coord.Y)\n\t}\n\n\tfor _, path := range paths", "E11.draw-matrix"},
 		{"FitImage reflects about the size taken before the crop", "canvas.go", `m = m\.ReflectYAbout\(float64\(img\.Bounds\(\)\.Size\(\)\.Y\) / 2\.0\)\n\t\}\n\tif c\.coordSystem == CartesianII \|\| c\.coordSystem == CartesianIII \{\n\t\tm = m\.ReflectXAbout\(float64\(img\.Bounds\(\)\.Size\(\)\.X\) / 2\.0\)\n\t\}\n\tc\.RenderImage\(img, m\)\n\}\n\n// DrawPath`, "m = m.ReflectYAbout(height / 2.0)\n\t}\n\tif c.coordSystem == CartesianII || c.coordSystem == CartesianIII {\n\t\tm = m.ReflectXAbout(float64(img.Bounds().Size().X) / 2.0)\n\t}\n\tc.RenderImage(img, m)\n}\n\n// DrawPath", "E11.reflect-image"},
@@ -214,7 +221,7 @@ var Mutants = map[string][]Mutant{
 		{"checkDash takes the parity on the undoubled array", "path.go", `\ti, pos := dashStart\(offset, dd\)\n\tif length <= pos\+dd\[i\] \{`, "\ti, pos := dashStart(offset, d)\n\tif length <= pos+d[i] {", "E11.dash-parity"},
 		{"Fit expands only non-empty bounds", "canvas.go", `\t\t\t\tbounds = l\.path\.Bounds\(\)\n\t\t\t\tif l\.style\.HasStroke\(\) \{`, "\t\t\t\tbounds = l.path.Bounds()\n\t\t\t\tif !bounds.Empty() && l.style.HasStroke() {", "E11.fit-stroke"},
 		{"Fit forgets the top side", "canvas.go", `\t\t\t\t\tbounds\.X1 \+= hw\n\t\t\t\t\tbounds\.Y1 \+= hw\n`, "\t\t\t\t\tbounds.X1 += hw\n", "E11.fit-stroke"},
-		{"SetDashes re-uses the saved backing array", "canvas.go", `c\.Style\.Dashes = dashes`, `c.Style.Dashes = append(c.Style.Dashes[:0], dashes...)`, "E1.ctx-setter-alias"},
+		{"SetDashes re-uses the saved backing array", "canvas.go", `c\.Style\.Dashes = append\(\[\]float64\{\}, dashes\.\.\.\)`, `c.Style.Dashes = append(c.Style.Dashes[:0], dashes...)`, "E1.ctx-setter-alias"},
 		{"Rotate pre-multiplies", "canvas.go", `c\.view = c\.view\.Mul\(Identity\.Rotate\(rot\)\)`, `c.view = Identity.Rotate(rot).Mul(c.view)`, "E11.view-postmul"},
 		{"Pop restores the style only", "canvas.go", `c\.ContextState = c\.stack\[len\(c\.stack\)-1\]`, `c.Style = c.stack[len(c.stack)-1].Style`, "E11.ctx-stack"},
 		{"DrawText compensates the wrong quadrant", "canvas.go", `(\tm := c\.CoordSystemView\(\)\.Mul\(c\.view\)\.Translate\(coord\.X, coord\.Y\)\n\n\t// keep textbox origin at the top-left\n\tif c\.coordSystem == CartesianIII \|\| c\.coordSystem == )CartesianIV`, "${1}CartesianII", "E11.draw-matrix"},
@@ -246,6 +253,7 @@ var Mutants = map[string][]Mutant{
 		{"Linebreak looks at items[b+1] unguarded", "text/linebreak.go", `\(len\(lb\.items\) <= b\+1 \|\| lb\.items\[b\+1\]\.Type != PenaltyType\)`, `lb.items[b+1].Type != PenaltyType`, "E4.neighbour-guard"},
 	},
 	"C18": {
+		{"ToUnicode run continues across skipped glyphs", "renderers/pdf/writer.go", `(?s)if 0x010000 <= unicode && unicode <= 0x10FFFF \{(.*?)if uint16\(subsetGlyphID\+1\) == startGlyphID\+length && unicode == startUnicode\+uint32\(length\) \{`, "if unicode == 0 {\n\t\t\tcontinue\n\t\t} else if 0x010000 <= unicode && unicode <= 0x10FFFF {${1}if unicode == startUnicode+uint32(length) {", "E11.run-covers-codes"},
 		{"vertical TJ adjustment against the horizontal advance", "renderers/pdf/writer.go", `origYAdvance := -int32\(w\.font\.SFNT\.GlyphVerticalAdvance\(glyph\.ID\)\)`, "origYAdvance := -int32(w.font.SFNT.GlyphAdvance(glyph.ID))", "E11.advance-axis"},
 		{"text matrix shear entry not compared", "renderers/pdf/writer.go", ` && canvas\.Equal\(m\[0\]\[1\], w\.textPosition\[0\]\[1\]\)`, "", "E5.text-matrix"},
 		{"sub/superscript size scaled after MmPerEm", "font.go", `\t\tface\.YOffset = int32\(float64\(yOffset\) / scale\)\n\t\}\n\tface\.MmPerEm = face\.Size / float64\(face\.Font\.Head\.UnitsPerEm\)\n\treturn face\n`, "\t\tface.YOffset = int32(float64(yOffset) / scale)\n\t}\n\tface.MmPerEm = face.Size / float64(face.Font.Head.UnitsPerEm)\n\tif face.Variant == FontSubscript {\n\t\tface.Size *= 0.999\n\t}\n\treturn face\n", "E11.derived-scale"},
@@ -257,6 +265,7 @@ var Mutants = map[string][]Mutant{
 		{"vertical fonts written as horizontal", "renderers/pdf/writer.go", `w\.writeFonts\(w\.fontsV, true\)`, `w.writeFonts(w.fontsV, false)`, "E5.fontmaps"},
 	},
 	"C19": {
+		{"class selector looks at the first word only", "svg.go", `(?s)\t\tfor _, val := range vals \{\n\t\t\tif val != "" && val == sel\.val \{\n\t\t\t\treturn true\n\t\t\t\}\n\t\t\}\n\t\treturn false\n`, "\t\treturn len(vals) > 0 && vals[0] == sel.val\n", "E11.word-list-match"},
 		{"style-sheet rules applied before the attributes", "svg.go", `(?s)(\t// apply presentation attributes in order\n\tfor _, prop := range props \{\n\t\tif prop\.key != "style" \{\n\t\t\tsvg\.setAttribute\(prop\.key, prop\.val\)\n\t\t\}\n\t\}\n\n)(\t// apply CSS from <style>\n.*?\n\t\}\n\n)(\t// apply the style attribute)`, "${2}${1}${3}", "E11.svg-cascade"},
 		{"transform names trimmed of white space only", "svg.go", "fun = strings\\.ToLower\\(strings\\.Trim\\(v\\[j:i\\], \" \\\\t\\\\r\\\\n,\"\\)\\)", "fun = strings.ToLower(strings.TrimSpace(v[j:i]))", "E11.svg-transform-separator"},
 		{"importer loses its fill-rule case", "svg.go", `\tcase "fill-rule":\n\t\tif val == "evenodd" \{\n\t\t\tsvg\.ctx\.SetFillRule\(EvenOdd\)\n\t\t\} else if val == "nonzero" \{\n\t\t\tsvg\.ctx\.SetFillRule\(NonZero\)\n\t\t\}\n`, "", "E11.svg-vocabulary"},
@@ -276,6 +285,7 @@ var Mutants = map[string][]Mutant{
 		{"explicit width used as millimetres", "svg.go", `width = svg\.parseDimension\(attrWidth, 1\.0\) \* 25\.4 / 96\.0`, `width = svg.parseDimension(attrWidth, 1.0)`, "E11.svg-size"},
 	},
 	"C20": {
+		{"image pixel buffers recycled without zeroing", "renderers/pdf/writer.go", `(?s)(\t"strings"\n)(.*?)(func \(w \*pdfPageWriter\) embedImage\(.*?)stream = make\(\[\]byte, size\.X\*size\.Y\*3\)`, "${1}\t\"sync\"\n${2}var imageBufPool sync.Pool\n\nfunc getImageBuf(n int) []byte {\n\tif buf, ok := imageBufPool.Get().(*[]byte); ok && n <= cap(*buf) {\n\t\treturn (*buf)[:n]\n\t}\n\treturn make([]byte, n)\n}\n\n${3}stream = getImageBuf(size.X * size.Y * 3)\n\t\tdefer func() { imageBufPool.Put(\u0026stream) }()", "E7.pool-reinit"},
 		{"nil-options PDF renderer keeps the address of DefaultOptions", "renderers/pdf/pdf.go", `\t\tdefaultOptions := DefaultOptions\n\t\topts = &defaultOptions\n`, "\t\topts = &DefaultOptions\n", "E7.global-escape"},
 		{"sweep points released with their square", "path_intersection.go", `\t\tfor _, event := range square\.Events \{\n\t\t\tif !event\.left \{\n\t\t\t\tboPointPool\.Put\(event\.other\)\n\t\t\t\tboPointPool\.Put\(event\)\n\t\t\t\}\n\t\t\}\n\t\tboSquarePool\.Put\(square\)`, "\t\tfor _, event := range square.Events {\n\t\t\tboPointPool.Put(event)\n\t\t}\n\t\tboSquarePool.Put(square)", "E7.point-release"},
 		{"recycled node keeps its left child", "path_intersection.go", `\tn\.left = nil\n`, ``, "E7.pool-reinit"},
